@@ -260,6 +260,27 @@ def sched_source(draw):
     return SCHED_DECLS + "parser { %s%s%s }\n" % (lead, body, tail), argv
 
 
+ODD_DECLS = ("out int n0 = 0;\nout int{unsigned, size 1} n1 = 0;\nout bool b0 = false;\nout enum{EA,EB} e0;\nout str[8] s0;\nhook h0;\n"
+             "macro mx(expr e) { TARGET = e; }\nmacro my(expr e) { if e { h0(); } }\nmacro mz(expr e) { mx([e + 1]); }\n")
+ODD_EXPRS = ["1 / 0", "1 % 0", "1 << -1", "1 >> -1", "nope + 1", "nope", "EA", "EA + 1", "true + 1", "9" * 4400, "0x" + "f" * 4000, "-1 / 0", "(1 / 0) == 1", "1 / 0 == 1", "!nope",
+             "s0.len / 0", "n0 / 0", "'a' / 0", "99999999999999999999 * 99999999999999999999", "1 << 100", "1 << 64", "-9223372036854775808 / -1", "e0 == EA", "e0 == nope",
+             "b0 + 1", "1 / (2 - 2)", "1 % (n0 - n0)", "true / false", "1 << (0 - 1)", "s0[1 / 0]", "nope.len", "s0[nope]", "0 / 1", "7 / 2 * 0", "$last / 0", "1 / 0 + nope",
+             "18446744073709551615", "18446744073709551616", "-9223372036854775809", "'\\q'", "EA == EB", "EA < 1", "!EA", "-EA", "true << 70", "0b" + "1" * 70]
+ODD_STMTS = ["%(t)s = %(e)s;", "%(t)s = [%(e)s];", "if %(e)s { \"k\"; }", "if %(e)s { h0(); }", "s0 += [%(e)s];", "mx(%(e)s);", "mx([%(e)s]);", "my([%(e)s]);", "mz([%(e)s]);",
+             "n0 = s0[%(e)s];", "if n0 == 1 { %(t)s = [%(e)s]; }", "/a{%(e)s}/;", "case { \"q\" -> { %(t)s = [%(e)s]; } }", "if [%(e)s] { \"k\"; } elif %(e)s { \"j\"; }"]
+
+
+@st.composite
+def odd_expr_source(draw):
+    """Valid declarations and one statement whose expression is constant, undefined, ill-typed or out of every range, used directly, inside a
+    condition, as an index, as a repeat count or through one or two macro expansions: the error path has to render its own message."""
+    target = draw(st.sampled_from(["n0", "n1", "b0", "e0", "s0"]))
+    stmt = draw(st.sampled_from(ODD_STMTS)) % {"t": draw(st.sampled_from(["n0", "n1", "b0", "e0", "s0"])), "e": draw(st.sampled_from(ODD_EXPRS))}
+    extra = "out int{size %s} n2 = %s;\n" % (draw(st.sampled_from(["1", "2", "4", "8"])), draw(st.sampled_from(ODD_EXPRS[:30] + ["300", "-129", "70000"]))) if draw(st.integers(0, 5)) == 0 else ""
+    src = ODD_DECLS.replace("TARGET", target) + extra + "parser { \"a\"; %s \"z\"; }\n" % stmt
+    return src, list(draw(odd_argv()))
+
+
 @st.composite
 def typed_source(draw):
     mode = draw(st.sampled_from(["plain", "yield", "eof"]))
@@ -344,7 +365,7 @@ def worker(job):
         if len(shard.samples) < 2 and len(src) < 400:
             shard.sample({"source": src, "argv": argv})
 
-    strat = {"wild": wild_source, "typed": typed_source, "mutated": mutated_typed_source, "sched": sched_source}[which]()
+    strat = {"wild": wild_source, "typed": typed_source, "mutated": mutated_typed_source, "sched": sched_source, "oddexpr": odd_expr_source}[which]()
     common.hyp_run(shard, body, strat, n, seed, known_keys=known, stop_at=stop_at, shrink=False)
     # ddmin-ish: try to shorten each bucket's source by dropping lines / statements
     for b, info in buckets.items():
@@ -390,6 +411,10 @@ FIXED_SOURCES = [
     ('out int{unsigned, size 1} n0 = 100;\nout str[8] s0;\nparser { loop { "a"; if n0 == 1 { break; } } try { s0 += [n0]; "b"; } catch { } "x"; }', ["-O3"]),
     ('parser { optional { end; "a"; } end; }', ["-feof-support", "-fcodepoints-in-errors"]),
     ('parser { ' + ' '.join('"abcdefghijklmnopqrst";' for i in range(64)) + ' }', ["-O2"]),
+    ('out enum{A,B} x;\nmacro m(expr e) { x = e; }\nparser { m([nope + 1]); "a"; }', []), ('out bool b;\nparser { "a"; b = [1/0]; }', []),
+    ('out bool b0 = false;\nmacro mx(expr e) { b0 = e; }\nparser { "a"; mx([1 << (0 - 1)]); }', ["-O3"]), ('out int n;\nparser { "a"; n = %s; }' % ("9" * 4400), []),
+    ('out enum{EA,EB} e0;\nparser { "a"; e0 = 0x%s; }' % ("f" * 4000), []), ('parser { /a{18446744073709551616}/; }', []), ('parser { /a{-9223372036854775809}/; }', []),
+    ('out str[%s] s;\nparser { "a"; }' % ("9" * 4400), []), ('parser { b/61{99999999999999999999}/; }', []),
     ('parser { ""; }', []), ('parser { "6"b; }', []), ('parser { /a{3,2}/; }', []), ('parser { "é"; }', []), ('parser { /[c-a]/; }', []),
 ]
 
@@ -428,7 +453,7 @@ def afuzz_tier(ctx, seconds, known):
     os.makedirs(outdir)
     procs = []
     for i in range(common.NPROC):
-        which = ("wild", "sched", "mutated", "wild")[i % 4]
+        which = ("wild", "sched", "mutated", "oddexpr")[i % 4]
         log = open(os.path.join(outdir, "log%d.txt" % i), "w")
         procs.append((i, subprocess.Popen([sys.executable, "-m", "vlib.afuzz", which, str(ctx.seed * 100003 + 500 + i), str(seconds), outdir, str(i)],
                                           env=env, cwd=common.VERIF_DIR, stdout=log, stderr=subprocess.STDOUT), log))
@@ -486,7 +511,7 @@ def main(ctx):
     ctx.pmap(fixed_worker, [(open(p).read(), a, known) for p in corpus for a in ([], ["-O3", "-feof-support", "-fyield-support"])])
     n = 1200 if quick else 12000
     stop_at = time.time() + (60 if quick else 540)
-    ctx.pmap(worker, [(ctx.seed * 100003 + i, n, known, stop_at, ("wild", "sched", "mutated", "typed")[i % 4]) for i in range(common.NPROC)])
+    ctx.pmap(worker, [(ctx.seed * 100003 + i, n, known, stop_at, ("wild", "sched", "mutated", "typed", "wild", "oddexpr", "mutated", "typed")[i % 8]) for i in range(common.NPROC)])
     afuzz_tier(ctx, 25 if quick else 330, known)
     ctx.rule = ("case = (source text from an untyped grammar-based generator [3/4] or from the typed program generator with the lookahead constraint "
                 "relaxed [1/4, half of them with one identifier / operator mutated], option set from a list of odd-but-legal mixes); evaluations = compilations. Non-trivial: source reaching an error path "
